@@ -101,7 +101,7 @@ func Main(tier, replay string) {
 	typ, _, _ := fam.Types("quick")
 	var cases []scen.Case
 	for i, c := range sig.Cases {
-		if tier == "thorough" || i%5 == 0 || c.Features["family"] == "sig-return" {
+		if tier == "thorough" || i%5 == 0 || c.Features["family"] == "sig-return" || c.Features["family"] == "sig-grouped" || (c.Features["alias"] == "wn" && c.Features["validate"] == "") {
 			cases = append(cases, c)
 		}
 	}
